@@ -29,7 +29,9 @@ RULE = (
     "(2) per producer, dequeue order == send order; (3) no interleaving: every action executed after on_event_received(e) "
     "and before the next on_event_received was caused by e or by an eventless follow-up, so events raised by actions are "
     "handled after the macrostep that raised them; (4) at the final quiescent point no `always` transition is enabled "
-    "(unless the run hit maxIterations). Non-trivial = >=2 producers and >=1 send that landed while a macrostep was in "
+    "(unless the run hit maxIterations); (5) transitions are serial: the `from` snapshot each on_transition hook reports "
+    "equals the `to` snapshot of the previous one, from start() on. Slow actions also sit in `always`, entry and exit "
+    "lists so that the initial macrostep itself suspends. Non-trivial = >=2 producers and >=1 send that landed while a macrostep was in "
     "flight (inside a slow action) or a raise during start(); distinct = distinct (machine, schedule)."
 )
 ASSUMPTIONS = [
@@ -60,8 +62,14 @@ def _case(draw):
         for fam, key, i, t in state_transitions(s):
             if not t.get("null") and fam == "on" and d.chance(20):
                 t.setdefault("actions", []).append({"k": "user", "name": "slow"})
+            if not t.get("null") and fam == "always" and d.chance(25):
+                t.setdefault("actions", []).append({"k": "user", "name": "slow"})
             if not t.get("null") and fam == "on" and d.chance(8):
                 t.setdefault("actions", []).append({"k": "raise", "event": d.pick(gen.RAISED), "delay": d.pick([5, 15])})
+        if s["kind"] != "history" and d.chance(6):
+            s.setdefault("entry", []).append({"k": "user", "name": "slow"})
+        if s["kind"] != "history" and d.chance(6):
+            s.setdefault("exit", []).append({"k": "user", "name": "slow"})
     nprod = d.int(2, 4)
     producers = []
     for p in range(nprod):
@@ -134,6 +142,10 @@ def run_async(case, rec_out):
     return sent, out
 
 
+class Saturated(Exception):
+    pass
+
+
 def run_sync(case, rec_out):
     from xstate_statemachine import Event, SyncInterpreter, create_machine
 
@@ -186,8 +198,17 @@ def run_sync(case, rec_out):
             t.join()
         sched.advance(case["tail"] / 1000.0)
         sched.settle()
+        # slow entry/exit actions plus self re-arming timers can keep the engine busy past the
+        # tail: give it more virtual time; a machine that never goes idle is not judged at "the end"
+        for _ in range(40):
+            if rec.blown or not (it._is_processing or it._event_queue):
+                break
+            sched.advance(0.1)
+            sched.settle()
         if rec.blown:
             raise StepBudgetExceeded("blown")
+        if it._is_processing or it._event_queue:
+            raise Saturated()
         cfgset = frozenset(n.id for n in it._active_state_nodes)
         status = it.status
         return sent, (cfgset, status), errors
@@ -219,6 +240,9 @@ def check_case(case) -> CaseResult:
         return res
     except (LoopDeadlock, vthreads.Deadlock):
         res.inconclusive = "deadlock"
+        return res
+    except Saturated:
+        res.inconclusive = "never-idle"
         return res
     rec = rec_out[0]
     if rec.blown:
@@ -286,6 +310,21 @@ def check_case(case) -> CaseResult:
             if ev != cur and ev[0] != "":
                 res.violate(f"{engine}|interleaved-macrosteps", {"engine": engine, "processing": cur, "action": e[1], "action_event": ev})
                 break
+    # ---- (5) transitions are serial: each one starts from the configuration the previous one left
+    #      (two macrosteps in flight at once - e.g. the run loop consuming a raised event while
+    #      start() is still settling - show up as a transition whose `from` snapshot was taken
+    #      before another transition completed)
+    prev_to = None
+    for e in log:
+        if e[0] != "trans":
+            continue
+        if e[6] == "___xstate_statemachine_init___":
+            continue  # the sync engine reports its init pseudo-transition after the initial settle
+        if prev_to is not None and e[2] != prev_to:
+            res.violate(f"{engine}|transition-started-from-stale-configuration",
+                        {"engine": engine, "tid": e[1], "event": e[6], "from": sorted(e[2]), "previous_to": sorted(prev_to)})
+            break
+        prev_to = e[3]
     # ---- non-triviality: a send landed while a slow action was running
     begin = None
     intervals = []
